@@ -1,0 +1,98 @@
+//go:build verif && !js
+
+package websocket
+
+import (
+	"bufio"
+	"compress/flate"
+	"sync/atomic"
+)
+
+// VerifHooks are callbacks installed by an external verification harness.
+// They only exist when the package is built with the verif build tag.
+type VerifHooks struct {
+	// Point is called at named points between critical sections.
+	Point func(c *Conn, name string)
+	// Pool is called on every get/put of a process wide pool.
+	Pool func(kind, op string, obj interface{})
+	// Use is called when a method starts (enter=true) and stops (enter=false)
+	// executing inside the given pooled objects.
+	Use func(c *Conn, what string, enter bool, objs ...interface{})
+}
+
+var verifHooks atomic.Value // *VerifHooks
+
+// VerifSetHooks installs h (nil removes all hooks).
+func VerifSetHooks(h *VerifHooks) {
+	if h == nil {
+		h = &VerifHooks{}
+	}
+	verifHooks.Store(h)
+}
+
+func verifPoint(c *Conn, name string) {
+	if h, _ := verifHooks.Load().(*VerifHooks); h != nil && h.Point != nil {
+		h.Point(c, name)
+	}
+}
+
+func verifPool(kind, op string, obj interface{}) {
+	if h, _ := verifHooks.Load().(*VerifHooks); h != nil && h.Pool != nil {
+		h.Pool(kind, op, verifIdent(obj))
+	}
+}
+
+func verifUse(c *Conn, what string, enter bool, objs ...interface{}) {
+	if h, _ := verifHooks.Load().(*VerifHooks); h != nil && h.Use != nil {
+		ids := make([]interface{}, 0, len(objs))
+		for _, o := range objs {
+			if id := verifIdent(o); id != nil {
+				ids = append(ids, id)
+			}
+		}
+		h.Use(c, what, enter, ids...)
+	}
+}
+
+// verifIdent maps a pooled object to a comparable identity. A sliding window
+// is identified by its backing array as that is what travels through the pool.
+// Typed nil pointers and nil interfaces map to nil.
+func verifIdent(obj interface{}) interface{} {
+	switch o := obj.(type) {
+	case nil:
+		return nil
+	case *slidingWindow:
+		if o == nil || cap(o.buf) == 0 {
+			return nil
+		}
+		return &o.buf[:1][0]
+	case *bufio.Reader:
+		if o == nil {
+			return nil
+		}
+	case *bufio.Writer:
+		if o == nil {
+			return nil
+		}
+	case *flate.Writer:
+		if o == nil {
+			return nil
+		}
+	}
+	return obj
+}
+
+// VerifMaskGo exposes the portable masking implementation.
+func VerifMaskGo(b []byte, key uint32) uint32 {
+	return maskGo(b, key)
+}
+
+// VerifMask exposes the masking implementation the connection code uses.
+func VerifMask(b []byte, key uint32) uint32 {
+	return mask(b, key)
+}
+
+// VerifIsClient reports the role of c.
+func VerifIsClient(c *Conn) bool {
+	return c.client
+}
